@@ -61,5 +61,9 @@ let () = run_lines (fun toks ->
   | ["poly.read"; bal; p; h] ->
     let (((cs, r), e), f) = Model.x_poly_read (b bal) (z_of_string p) (chars_of_hex h) in
     string_of_zlist cs ^ " " ^ hex_of_chars r ^ " " ^ fl e f
+  | ["poly.parse"; var; h] ->
+    (match Model.x_poly_parse (chars_of_hex var) (chars_of_hex h) with
+     | None -> "NONE"
+     | Some ts -> if ts = [] then "-" else String.concat "," (List.map (fun (i, c) -> string_of_z i ^ ":" ^ string_of_z c) ts))
   | ["poly.degfmt"; bal; p; cs] -> hex_of_chars (Model.x_poly_degfmt (b bal) (z_of_string p) (zlist_of_string cs))
   | _ -> "BAD-LINE")
